@@ -4,8 +4,8 @@
   the source run (`Rox.Spec.Text`: literal runs §2.11-normalised resp. §3.3.3-normalised,
   referenced characters kept as they are).
 -/
-import Rox.Props.C04
-import Rox.Props.C05
+import Rox.Props.C04Base
+import Rox.Props.C05Base
 import Rox.Lemmas.RefSpec
 
 namespace Rox.Lemmas
@@ -31,6 +31,159 @@ def runPieces : Nat → Stream → Option (List Piece)
         let lit := s.rest.takeWhile (· != bAmp)
         (runPieces fuel ⟨s.pos + lit.length, s.rest.drop lit.length⟩).map (Piece.lit lit :: ·)
 
+/-! ### Splitting a stream at the next `&` -/
+
+theorem tw_split (l : Bytes) :
+    ∃ rest', l = l.takeWhile (· != bAmp) ++ rest' ∧
+      l.drop (l.takeWhile (· != bAmp)).length = rest' ∧
+      (rest' = [] ∨ ∃ r, rest' = bAmp :: r) ∧
+      ∀ x ∈ l.takeWhile (· != bAmp), x ≠ bAmp := by
+  induction l with
+  | nil => exact ⟨[], by simp⟩
+  | cons a l ih =>
+    obtain ⟨rest', h1, h2, h3, h4⟩ := ih
+    by_cases ha : a = bAmp
+    · subst ha
+      exact ⟨bAmp :: l, by simp⟩
+    · have htw : (a :: l).takeWhile (· != bAmp) = a :: l.takeWhile (· != bAmp) := by
+        simp [ha]
+      refine ⟨rest', ?_, ?_, h3, ?_⟩
+      · rw [htw]; simp [← h1]
+      · rw [htw]; simpa using h2
+      · rw [htw]
+        intro x hx
+        rcases List.mem_cons.1 hx with rfl | hx
+        · exact ha
+        · exact h4 x hx
+
+theorem encodeChar_ne_nil (ch : Nat) : encodeChar ch ≠ [] := by
+  unfold encodeChar
+  repeat' split
+  all_goals simp
+
+/-- The pieces of a run are maximal literal runs separated by non-empty referenced pieces. -/
+theorem runPieces_alternating : ∀ (fuel : Nat) (s : Stream) (ps : List Piece),
+    runPieces T txt fuel s = some ps →
+    Alternating ps ∧ ((s.rest = [] ∨ ∃ r, s.rest = bAmp :: r) → startsWithLit ps = false) := by
+  intro fuel
+  induction fuel with
+  | zero => intro s ps h; simp [runPieces] at h
+  | succ fuel ih =>
+    intro s ps h
+    obtain ⟨pos, rest⟩ := s
+    rw [runPieces] at h
+    split at h
+    · simp at h; subst h; simp [Alternating, startsWithLit]
+    · rename_i c0 r hrest
+      simp only at hrest
+      split at h
+      · rename_i hc
+        split at h
+        · rename_i s' ch hcr
+          simp only [Option.map_eq_some_iff] at h
+          obtain ⟨ps', hps', rfl⟩ := h
+          have := ih s' ps' hps'
+          exact ⟨⟨encodeChar_ne_nil ch, this.1⟩, fun _ => rfl⟩
+        · simp at h
+      · rename_i hc
+        simp only [Option.map_eq_some_iff] at h
+        obtain ⟨ps', hps', rfl⟩ := h
+        obtain ⟨rest', h1, h2, h3, h4⟩ := tw_split rest
+        rw [h2] at hps'
+        have := ih _ ps' hps'
+        have hs := this.2 h3
+        refine ⟨?_, ?_⟩
+        · cases ps' with
+          | nil => simp [Alternating]
+          | cons q r' =>
+            cases q with
+            | lit _ => simp [startsWithLit] at hs
+            | raw l' => simpa [Alternating] using this.1
+        · intro hh
+          rcases hh with hh | ⟨r', hh⟩
+          · rw [hrest] at hh; simp at hh
+          · rw [hrest] at hh; simp at hh; exact absurd hh.1 (by simpa using hc)
+
+/-! ### The chunk loop of `process_text` -/
+
+/-- A literal run goes through `push_from_text` byte by byte. -/
+theorem processTextLoop_lit (lower : Token → Ctx → Res Ctx) (range : Range) (c : Ctx)
+    (rest' : Bytes) (res : TextBuffer × Ctx) (lit : Bytes) :
+    ∀ (fuel' pos : Nat) (buf : TextBuffer), (∀ x ∈ lit, x ≠ bAmp) →
+      processTextLoop T txt lower range fuel' ⟨pos, lit ++ rest'⟩ buf c = .ok res →
+      ∃ fuel'', processTextLoop T txt lower range fuel'' ⟨pos + lit.length, rest'⟩
+        (buf.pushBytesText lit) c = .ok res := by
+  induction lit with
+  | nil => intro fuel' pos buf _ h; exact ⟨fuel', by simpa [TextBuffer.pushBytesText] using h⟩
+  | cons x lit ih =>
+    intro fuel' pos buf hall h
+    cases fuel' with
+    | zero => simp [processTextLoop] at h
+    | succ f =>
+      have hx : (x == bAmp) = false := by simpa using hall x (by simp)
+      rw [processTextLoop] at h
+      simp only [Stream.atEnd, List.cons_append, List.isEmpty_cons, Bool.false_eq_true, if_false,
+        parseNextChunk, hx, Res.bind_ok] at h
+      obtain ⟨fuel'', h'⟩ := ih f (pos + 1) (buf.pushFromText x) (fun y hy => hall y (by simp [hy])) h
+      refine ⟨fuel'', ?_⟩
+      have : pos + (x :: lit).length = pos + 1 + lit.length := by simp; omega
+      rw [this]
+      simpa [TextBuffer.pushBytesText] using h'
+
+/-- The chunk loop on a run of literals, character references and predefined entity references at
+depth 0: if it succeeds, it has pushed exactly the pieces and left the context alone. -/
+theorem processTextLoop_pieces (lower : Token → Ctx → Res Ctx) (range : Range) (c : Ctx)
+    (hd : c.ld.depth = 0) (res : TextBuffer × Ctx) :
+    ∀ (fuel : Nat) (s : Stream) (ps : List Piece), runPieces T txt fuel s = some ps →
+      ∀ (fuel' : Nat) (buf : TextBuffer),
+        processTextLoop T txt lower range fuel' s buf c = .ok res → res = (pushPieces buf ps, c) := by
+  intro fuel
+  induction fuel with
+  | zero => intro s ps h; simp [runPieces] at h
+  | succ fuel ih =>
+    intro s ps h fuel' buf hl
+    obtain ⟨pos, rest⟩ := s
+    rw [runPieces] at h
+    split at h
+    · rename_i hrest
+      simp only at hrest
+      subst hrest
+      simp at h; subst h
+      cases fuel' with
+      | zero => simp [processTextLoop] at hl
+      | succ f =>
+        rw [processTextLoop] at hl
+        simp [Stream.atEnd] at hl
+        simp [pushPieces, ← hl]
+    · rename_i c0 r hrest
+      simp only at hrest
+      subst hrest
+      split at h
+      · rename_i hc
+        split at h
+        · rename_i s' ch hcr
+          simp only [Option.map_eq_some_iff] at h
+          obtain ⟨ps', hps', rfl⟩ := h
+          cases fuel' with
+          | zero => simp [processTextLoop] at hl
+          | succ f =>
+            rw [processTextLoop] at hl
+            simp only [Stream.atEnd, List.isEmpty_cons, Bool.false_eq_true, if_false,
+              parseNextChunk, hc, if_true, hcr, Res.bind_ok, Res.pure_eq, hd,
+              Nat.lt_irrefl, gt_iff_lt] at hl
+            have := ih s' ps' hps' f _ hl
+            simpa [pushPieces] using this
+        · simp at h
+      · rename_i hc
+        simp only [Option.map_eq_some_iff] at h
+        obtain ⟨ps', hps', rfl⟩ := h
+        obtain ⟨rest', h1, h2, h3, h4⟩ := tw_split (c0 :: r)
+        rw [h2] at hps'
+        rw [h1] at hl
+        obtain ⟨fuel'', hl'⟩ := processTextLoop_lit T txt lower range c rest' res _ fuel' pos buf h4 hl
+        have := ih _ ps' hps' fuel'' _ hl'
+        simpa [pushPieces] using this
+
 /-- **C04, end to end at entity depth 0**: if `process_text` succeeds on a text token whose run
 consists of literal characters, character references and predefined entity references, then what
 it did is `append_text` of exactly the XML-defined decoding of the run (or nothing, when the
@@ -45,7 +198,48 @@ theorem processText_decodes (lower : Token → Ctx → Res Ctx) (c c' : Ctx) (te
     Alternating ps ∧
     (if decodePieces ps = [] then c' = c
      else c.appendText (.owned (decodePieces ps)) range = .ok c') := by
-  sorry
+  have halt := (runPieces_alternating T txt _ _ _ hp).1
+  refine ⟨halt, ?_⟩
+  have hdec := decode_pieces ps halt
+  unfold processText at h
+  simp only [hamp, Bool.not_true, Bool.false_eq_true, if_false] at h
+  have hstream : Stream.ofRange txt range.1 range.2 = ⟨text.off, text.bytes⟩ := by
+    rw [hr]; simp only [Stream.ofRange]; rw [← hs]
+  rw [hstream] at h
+  rw [Res.bind_eq_ok] at h
+  obtain ⟨⟨buf, c1⟩, hloop, hflush⟩ := h
+  have hres := processTextLoop_pieces T txt lower range c hd _ _ _ _ hp _ _ hloop
+  simp only [Prod.mk.injEq] at hres
+  obtain ⟨rfl, rfl⟩ := hres
+  simp only at hflush
+  unfold flushBuffer at hflush
+  split at hflush
+  · rename_i hne
+    rw [Res.bind_eq_ok] at hflush
+    obtain ⟨o, hfin, happ⟩ := hflush
+    have ho := finish_content _ _ hfin
+    rw [hdec] at ho
+    subst ho
+    have hnil : decodePieces ps ≠ [] := by
+      rw [← hdec]
+      simp only [TextBuffer.isEmpty, Bool.not_eq_true', List.isEmpty_eq_false_iff] at hne
+      unfold content TextBuffer.resolvePendingCr
+      split
+      · split
+        · simp
+        · rename_i h0; exact absurd h0 hne
+      · simpa using hne
+    simp only [hnil, if_false]
+    exact happ
+  · rename_i he
+    simp only [TextBuffer.isEmpty, Bool.not_eq_true', Bool.not_eq_false, List.isEmpty_iff] at he
+    have hnil : decodePieces ps = [] := by
+      rw [← hdec]
+      unfold content TextBuffer.resolvePendingCr
+      rw [he]
+      split <;> simp [he]
+    simp only [hnil, if_true]
+    simpa using hflush.symm
 
 /-- The §3.3.3 normalisation of a run of pieces: literal white space becomes a space (CR LF one
 space), referenced characters are kept. -/
@@ -53,6 +247,133 @@ def attrDecode : List Piece → Bytes
   | [] => []
   | .lit b :: r => attrLit b ++ attrDecode r
   | .raw b :: r => b ++ attrDecode r
+
+/-! ### The byte loop of `_normalize_attribute` -/
+
+theorem pushFromAttr_amp (b : TextBuffer) (x : UInt8) :
+    b.pushFromAttr x (some bAmp) = b.pushFromAttr x none := by
+  have : (some bAmp == some bLF) = false := by decide
+  simp [TextBuffer.pushFromAttr, this]
+
+theorem pushFromAttr_pending (b : TextBuffer) (x : UInt8) (n : Option UInt8) :
+    (b.pushFromAttr x n).pendingCr = b.pendingCr := by
+  unfold TextBuffer.pushFromAttr; split <;> rfl
+
+theorem pushLit_pending (l : Bytes) : ∀ b : TextBuffer,
+    (Props.C05.pushLit b l).pendingCr = b.pendingCr := by
+  induction l with
+  | nil => intro b; rfl
+  | cons x l ih => intro b; simp only [Props.C05.pushLit]; rw [ih, pushFromAttr_pending]
+
+theorem pushBytesRaw_pending (l : Bytes) : ∀ b : TextBuffer, b.pendingCr = false →
+    (b.pushBytesRaw l).pendingCr = false := by
+  induction l with
+  | nil => intro b hb; simpa [TextBuffer.pushBytesRaw] using hb
+  | cons x l ih =>
+    intro b hb
+    have h1 : (b.pushRaw x).pendingCr = false := by
+      simp [TextBuffer.pushRaw, TextBuffer.resolvePendingCr, hb]
+    have := ih _ h1
+    simpa [TextBuffer.pushBytesRaw] using this
+
+/-- A literal run goes through `push_from_attr` with one byte of look-ahead. -/
+theorem normAttrLoop_lit (ents : List Entity)
+    (rec : Span → TextBuffer → LD → List Ev → Res (TextBuffer × LD × List Ev)) (ld : LD)
+    (tr : List Ev) (rest' : Bytes) (hrest : rest' = [] ∨ ∃ r, rest' = bAmp :: r)
+    (res : TextBuffer × LD × List Ev) (lit : Bytes) :
+    ∀ (fuel' pos : Nat) (buf : TextBuffer), (∀ x ∈ lit, x ≠ bAmp) →
+      normAttrLoop T txt ents rec fuel' ⟨pos, lit ++ rest'⟩ buf ld tr = .ok res →
+      ∃ fuel'', normAttrLoop T txt ents rec fuel'' ⟨pos + lit.length, rest'⟩
+        (Props.C05.pushLit buf lit) ld tr = .ok res := by
+  induction lit with
+  | nil => intro fuel' pos buf _ h; exact ⟨fuel', by simpa [Props.C05.pushLit] using h⟩
+  | cons x lit ih =>
+    intro fuel' pos buf hall h
+    cases fuel' with
+    | zero => simp [normAttrLoop] at h
+    | succ f =>
+      have hx : (x != bAmp) = true := by simpa using hall x (by simp)
+      rw [normAttrLoop] at h
+      simp only [List.cons_append, hx, if_true] at h
+      split at h
+      · exact absurd h (errAt_ne_ok _ _ _ _)
+      · have hhead : buf.pushFromAttr x (Stream.mk (pos + 1) (lit ++ rest')).currByte? =
+            buf.pushFromAttr x lit.head? := by
+          cases lit with
+          | cons y l' => simp [Stream.currByte?]
+          | nil =>
+            rcases hrest with rfl | ⟨r, rfl⟩
+            · simp [Stream.currByte?]
+            · simp [Stream.currByte?, pushFromAttr_amp]
+        rw [hhead] at h
+        obtain ⟨fuel'', h'⟩ := ih f (pos + 1) _ (fun y hy => hall y (by simp [hy])) h
+        refine ⟨fuel'', ?_⟩
+        have : pos + (x :: lit).length = pos + 1 + lit.length := by simp; omega
+        rw [this]
+        simpa [Props.C05.pushLit] using h'
+
+/-- The byte loop on a run of literals, character references and predefined entity references at
+depth 0: if it succeeds, the buffer holds the §3.3.3 normalisation of the pieces; the loop
+detector and the trace are returned as they were. -/
+theorem normAttrLoop_pieces (ents : List Entity)
+    (rec : Span → TextBuffer → LD → List Ev → Res (TextBuffer × LD × List Ev)) (ld : LD)
+    (hd : ld.depth = 0) (tr : List Ev) (res : TextBuffer × LD × List Ev) :
+    ∀ (fuel : Nat) (s : Stream) (ps : List Piece), runPieces T txt fuel s = some ps →
+      ∀ (fuel' : Nat) (buf : TextBuffer), buf.pendingCr = false →
+        normAttrLoop T txt ents rec fuel' s buf ld tr = .ok res →
+        ∃ b', res = (b', ld, tr) ∧ b'.pendingCr = false ∧
+          Props.C05.out b' = Props.C05.out buf ++ attrDecode ps := by
+  intro fuel
+  induction fuel with
+  | zero => intro s ps h; simp [runPieces] at h
+  | succ fuel ih =>
+    intro s ps h fuel' buf hb hl
+    obtain ⟨pos, rest⟩ := s
+    rw [runPieces] at h
+    split at h
+    · rename_i hrest
+      simp only at hrest
+      subst hrest
+      simp at h; subst h
+      cases fuel' with
+      | zero => simp [normAttrLoop] at hl
+      | succ f =>
+        rw [normAttrLoop] at hl
+        simp only [Res.ok.injEq] at hl
+        exact ⟨buf, hl.symm, hb, by simp [attrDecode]⟩
+    · rename_i c0 r hrest
+      simp only at hrest
+      subst hrest
+      split at h
+      · rename_i hc
+        split at h
+        · rename_i s' ch hcr
+          simp only [Option.map_eq_some_iff] at h
+          obtain ⟨ps', hps', rfl⟩ := h
+          cases fuel' with
+          | zero => simp [normAttrLoop] at hl
+          | succ f =>
+            rw [normAttrLoop] at hl
+            have hc' : (c0 != bAmp) = false := by simp [bne, hc]
+            simp only [hc', Bool.false_eq_true, if_false, hcr, Res.bind_ok, hd,
+              Nat.lt_irrefl, gt_iff_lt] at hl
+            obtain ⟨b', h1, h2, h3⟩ := ih s' ps' hps' f _ (pushBytesRaw_pending _ _ hb) hl
+            refine ⟨b', h1, h2, ?_⟩
+            rw [h3, Props.C05.charref_kept _ _ hb]
+            simp [attrDecode]
+        · simp at h
+      · rename_i hc
+        simp only [Option.map_eq_some_iff] at h
+        obtain ⟨ps', hps', rfl⟩ := h
+        obtain ⟨rest', h1, h2, h3, h4⟩ := tw_split (c0 :: r)
+        rw [h2] at hps'
+        rw [h1] at hl
+        obtain ⟨fuel'', hl'⟩ :=
+          normAttrLoop_lit T txt ents rec ld tr rest' h3 res _ fuel' pos buf h4 hl
+        obtain ⟨b', e1, e2, e3⟩ := ih _ ps' hps' fuel'' _ (by rw [pushLit_pending]; exact hb) hl'
+        refine ⟨b', e1, e2, ?_⟩
+        rw [e3, Props.C05.pushLit_spec]
+        simp [attrDecode]
 
 /-- **C05, end to end at entity depth 0**: if `normalize_attribute` succeeds on a value that needs
 normalisation and whose run consists of literal characters, character references and predefined
@@ -64,7 +385,26 @@ theorem normalizeAttribute_decodes (c c' : Ctx) (value : Span) (out : Str)
     (hneed : value.bytes.any (fun b => b == bAmp || b == bTab || b == bLF || b == bCR) = true)
     (h : normalizeAttribute T txt c value = .ok (c', out)) :
     out = .owned (attrDecode ps) ∧ c'.ld = c.ld := by
-  sorry
+  unfold normalizeAttribute at h
+  simp only [hneed, if_true] at h
+  rw [Res.bind_eq_ok] at h
+  obtain ⟨⟨buf, ld, tr⟩, hrec, h⟩ := h
+  rw [Res.bind_eq_ok] at h
+  obtain ⟨o, hfin, h⟩ := h
+  res_norm at h
+  obtain ⟨rfl, rfl⟩ := h
+  have hdf : depthFuel = 11 + 1 := rfl
+  rw [hdf, normAttrRec] at hrec
+  obtain ⟨b', e1, e2, e3⟩ :=
+    normAttrLoop_pieces T txt c.entities _ c.ld hd c.trace _ _ _ _ hp _ {} rfl hrec
+  simp only [Prod.mk.injEq] at e1
+  obtain ⟨rfl, rfl, rfl⟩ := e1
+  have ho := finish_content _ _ hfin
+  have hc : content buf = Props.C05.out buf := by
+    simp [content, TextBuffer.resolvePendingCr, e2, Props.C05.out]
+  rw [hc, e3] at ho
+  subst ho
+  simp [Props.C05.out]
 
 end
 end Rox.Lemmas
